@@ -116,7 +116,8 @@ def main():
     args = ap.parse_args()
     if args.transform:
         props = args.props or [f"C{i:02d}" for i in range(1, 21)]
-        names = ["alpha", "reprint"] if args.transform == "all" else [args.transform]
+        from transforms import TRANSFORMS as _T
+        names = sorted(_T) if args.transform == "all" else [args.transform]
         return 1 if sum(run_transform(n, props) for n in names) else 0
     from variants import VARIANTS
     vs = [v for v in VARIANTS
